@@ -25,9 +25,8 @@ theorem appx_resign_replaces_vacuous : appx_resign_replaces_full := by
     * the deflated parts are coherent with the codec (block map, content types, signature, and the catalog when one is
       written; the manifest is stored), and the codec's parsers accept the parts relic wrote: manifest, content types, and
       the block map part parses to the block map this signing marshalled (`r.bm`: names and `Size` attributes);
-    * sizes as in `C01.appx_sign_then_verify_zip`: manifest not empty, block map descriptor recognised (F7a), no ZIP64 extra
-      field on the parts before the signature (sizes < 0xffffffff, signature part at an offset ≤ 0xffffffff), signature
-      length < 2^64, output < 2^63.
+    * sizes as in `C01.appx_sign_then_verify_zip`: manifest not empty, block map descriptor recognised (F7a), part sizes and
+      signature length < 2^64, output < 2^63 (no 4 GiB limit since fix 7d5f1c2: `WriteDirectory` is idempotent).
     No hypothesis about `*.appx` members (F41 concerns the verifier only) nor about the payload otherwise: the second forward
     pass re-reads, at the same offsets of an identical prefix, what the first one read. -/
 theorem appx_resign_idempotent (c : Codec) (z : Bytes) (ps : Parts) (r : Signed) (hsign : sign c z ps = .ok r)
@@ -37,13 +36,13 @@ theorem appx_resign_idempotent (c : Codec) (z : Bytes) (ps : Parts) (r : Signed)
     (hsg : c.inflate ps.signature.compd = some ps.signature.plain)
     (hmo : c.manifestOk ps.manifest.plain = true) (hcto : c.ctypesOk ps.ctypes.plain = true)
     (hold : c.blockMap ps.blockmap.plain = some (r.bm.map fun f => (f.name, f.blocks.map (·.2))))
-    (hman : ps.manifest.plain ≠ [] ∧ ps.manifest.plain.length < u32Max)
+    (hman : ps.manifest.plain ≠ [] ∧ ps.manifest.plain.length < 2 ^ 64)
     (hbms : descWideOk ps.blockmap.compd.length ps.blockmap.plain.length ∧
-      ps.blockmap.compd.length < u32Max ∧ ps.blockmap.plain.length < u32Max)
-    (hcts : ps.ctypes.compd.length < u32Max ∧ ps.ctypes.plain.length < u32Max)
-    (hcats : r.streams.axci.isSome = true → ps.catalog.compd.length < u32Max ∧ ps.catalog.plain.length < u32Max)
+      ps.blockmap.compd.length < 2 ^ 64 ∧ ps.blockmap.plain.length < 2 ^ 64)
+    (hcts : ps.ctypes.compd.length < 2 ^ 64 ∧ ps.ctypes.plain.length < 2 ^ 64)
+    (hcats : r.streams.axci.isSome = true → ps.catalog.compd.length < 2 ^ 64 ∧ ps.catalog.plain.length < 2 ^ 64)
     (hsigs : ps.signature.plain.length < 2 ^ 64)
-    (hoff : r.sigOff ≤ u32Max) (h63 : r.out.length < 2 ^ 63) :
+    (h63 : r.out.length < 2 ^ 63) :
     ∃ r', sign c r.out ps = .ok r' ∧ r'.out = r.out ∧ r'.streams = r.streams := by
   have hsmall : ∀ g, digest c z = .ok g → PartsSmall g.p.hasPE ps := by
     intro g hg n hn
@@ -59,7 +58,7 @@ theorem appx_resign_idempotent (c : Codec) (z : Bytes) (ps : Parts) (r : Signed)
       · exact ⟨hbms.2.1, hbms.2.2⟩
       · exact hcts
       · exact hcats (by rw [hpe, hb])
-  exact resign_same ⟨hsign, hman.1, hbms.1, hsmall, hoff, hsigs, h63⟩ hbm hct
+  exact resign_same ⟨hsign, hman.1, hbms.1, hsmall, hsigs, h63⟩ hbm hct
     (fun g hg hb => hcat (by rw [C01.sign_digest_unique hsign hg, hb])) hsg hmo hcto hold
 
 /-! ### non-vacuity -/
@@ -77,17 +76,17 @@ set_option maxRecDepth 20000 in
 /-- the hypotheses of `appx_resign_idempotent` hold for the witness package of C05: its signed form is signed again into
     the same file -/
 example : ∃ r r', sign cR C05.zEx C05.psEx = .ok r ∧ sign cR r.out C05.psEx = .ok r' ∧ r'.out = r.out ∧ r'.streams = r.streams := by
-  have h : C05.okAnd (sign cR C05.zEx C05.psEx) (fun r => r.streams.axci.isNone && decide (r.sigOff ≤ u32Max) &&
+  have h : C05.okAnd (sign cR C05.zEx C05.psEx) (fun r => r.streams.axci.isNone &&
       decide (r.out.length < 2 ^ 63) &&
       decide (cR.blockMap C05.psEx.blockmap.plain = some (r.bm.map fun f => (f.name, f.blocks.map (·.2))))) = true := by decide
   obtain ⟨r, hr, hp⟩ := C01.okAnd_ok h
   simp only [Bool.and_eq_true, decide_eq_true_eq] at hp
-  obtain ⟨⟨⟨h1, h2⟩, h3⟩, h4⟩ := hp
+  obtain ⟨⟨h1, h3⟩, h4⟩ := hp
   have hnone : ¬ r.streams.axci.isSome = true := by
     cases hx : r.streams.axci <;> simp [hx] at h1 ⊢
   obtain ⟨r', e1, e2, e3⟩ := appx_resign_idempotent cR C05.zEx C05.psEx r hr (by decide) (by decide) (fun hc => absurd hc hnone)
     (by decide) (by decide) (by decide) h4 (by decide) ⟨by unfold descWideOk; decide, by decide, by decide⟩ (by decide)
-    (fun hc => absurd hc hnone) (by decide) h2 h3
+    (fun hc => absurd hc hnone) (by decide) h3
   exact ⟨r, r', hr, e1, e2, e3⟩
 
 end Relic.Props.C08
